@@ -19,58 +19,109 @@ OPENRPC = 'pjrpc.server.specs.openrpc.OpenRPC'
 
 
 def keep_formula(prog: Program, f: FuncInfo) -> Optional[Set[str]]:
-    """Normalised condition under which a parameter of the inspected signature is KEPT by the loop in f:
-    a set of conjuncts over {name-not-in-exclude, predicate-false, kind-in:<kinds>}; None if the loop is not recognised."""
+    """Normalised condition under which a parameter of the inspected signature is KEPT by f: a set of conjuncts over
+    {name-not-in-exclude, predicate-false, kind:<kinds>}; None if no keeping construct is recognised.  The keeping construct is
+    an append / keyed store inside the loop over `.parameters`, or a comprehension over it; predicate helpers extracted into
+    private methods are inlined first."""
+    from ..inline import inlined_program
+    from ..flow import _cond_guards
+    prog = inlined_program(prog, [f.qualname])
+    f = prog.func(f.qualname)
     cfg = CFG(f, prog)
+    guards: Optional[List[Tuple[ast.expr, bool]]] = None
+    pv: Optional[str] = None
     heads = [n for n in cfg.nodes if n.kind == 'next' and 'parameters' in norm(n.ast.iter)]
-    if len(heads) != 1:
-        return None
-    h = heads[0]
-    pv = dotted(h.ast.target)
-    keeps = []
-    for n in cfg.stmt_nodes():
-        a = n.ast
-        for c in calls_in(n):
-            if isinstance(c.func, ast.Attribute) and c.func.attr == 'append' and c.args and dotted(c.args[0]) == pv:
+    if len(heads) == 1:
+        h = heads[0]
+        pv = dotted(h.ast.target)
+        keeps = []
+        for n in cfg.stmt_nodes():
+            a = n.ast
+            for c in calls_in(n):
+                if isinstance(c.func, ast.Attribute) and c.func.attr == 'append' and c.args and dotted(c.args[0]) == pv:
+                    keeps.append(n)
+            if isinstance(a, ast.Assign) and isinstance(a.targets[0], ast.Subscript) and dotted(a.targets[0].slice) == f'{pv}.name':
                 keeps.append(n)
-        if isinstance(a, ast.Assign) and isinstance(a.targets[0], ast.Subscript) and dotted(a.targets[0].slice) == f'{pv}.name':
-            keeps.append(n)
-    if len(keeps) != 1:
+        if len(keeps) != 1:
+            return None
+        guards = [(g.src.ast, g.label == 'T') for g in guard_edges(cfg, keeps[0])]
+    elif not heads:
+        comps = [x for x in walk_own(f.node) if isinstance(x, (ast.ListComp, ast.GeneratorExp)) and len(x.generators) == 1
+                 and 'parameters' in norm(x.generators[0].iter) and dotted(x.elt) == dotted(x.generators[0].target)]
+        if len(comps) != 1:
+            return None
+        pv = dotted(comps[0].generators[0].target)
+        guards = []
+        for c in comps[0].generators[0].ifs:
+            guards += _cond_guards(c, True)
+    if guards is None or pv is None:
         return None
     conj: Set[str] = set()
-    for g in guard_edges(cfg, keeps[0]):
-        e = g.src.ast
-        lab = g.label
+    for e, pol in guards:
         if isinstance(e, ast.Compare) and dotted(e.left) == f'{pv}.name' and isinstance(e.ops[0], (ast.In, ast.NotIn)):
             neg = isinstance(e.ops[0], ast.NotIn)
-            if (lab == 'T') == neg:
-                conj.add('name-not-in-exclude')
-            else:
-                conj.add('name-IN-exclude')
+            conj.add('name-not-in-exclude' if pol == neg else 'name-IN-exclude')
         elif isinstance(e, ast.Call) and dotted(e.func) == 'self._exclude_param':
             args = [dotted(a) for a in e.args]
             if args == [f'{pv}.name', f'{pv}.annotation', f'{pv}.default']:
-                conj.add('predicate-false' if lab == 'F' else 'predicate-TRUE')
+                conj.add('predicate-false' if not pol else 'predicate-TRUE')
             else:
-                conj.add(f'predicate({",".join(map(str, args))}):{lab}')
+                conj.add(f'predicate({",".join(map(str, args))}):{"T" if pol else "F"}')
+        elif isinstance(e, ast.Compare) and dotted(e.left) == f'{pv}.kind' and isinstance(e.ops[0], (ast.In, ast.NotIn)):
+            from ..flow import Flow
+            nodes = cfg.nodes_of(e)
+            alts = Flow(cfg).alts(nodes[0], e.comparators[0]) if nodes else []
+            kinds_txt = norm(alts[0].expr) if len(alts) == 1 else norm(e.comparators[0])
+            kinds_txt = kinds_txt.replace('(', '[').replace(')', ']') if kinds_txt.startswith('(') else kinds_txt
+            inn = isinstance(e.ops[0], ast.In)
+            conj.add(f'kind:{kinds_txt}:{"T" if pol == inn else "F"}')
         elif isinstance(e, ast.Compare) and dotted(e.left) == f'{pv}.kind':
-            conj.add(f'kind:{norm(e.comparators[0])}:{lab}')
+            conj.add(f'kind:{norm(e.comparators[0])}:{"T" if pol else "F"}')
         else:
-            conj.add(f'other:{norm(e)}:{lab}')
+            conj.add(f'other:{norm(e)}:{"T" if pol else "F"}')
     return conj
 
 
-def exclude_expr(call: ast.Call, pos: Optional[int] = None) -> Optional[str]:
+def exclude_expr(call: ast.Call, pos: Optional[int] = None, prog: Optional[Program] = None, f: Optional[FuncInfo] = None) -> Optional[str]:
+    """Normal form of the exclude= argument, decided on value flow: '{<method>.context} iff set' when it is a one-element
+    collection holding X.context on the paths where X.context is set and an empty collection otherwise."""
     ex = kwarg(call, 'exclude', pos)
     if ex is None:
         return None
-    # normalise `(X.context,) if X.context else ()` / `[X.context] if X.context else []`
-    if isinstance(ex, ast.IfExp) and isinstance(ex.body, (ast.Tuple, ast.List)) and len(ex.body.elts) == 1 and \
-            isinstance(ex.orelse, (ast.Tuple, ast.List)) and not ex.orelse.elts:
-        el = dotted(ex.body.elts[0])
-        t = dotted(ex.test)
-        if el and t == el and el.endswith('.context'):
-            return '{<method>.context} iff set'
+    if prog is None or f is None:
+        return norm(ex)
+    from ..cfg import CFG
+    from ..flow import Flow
+    from ..util import classify_cond, stmt_node_of
+    cfg = CFG(f, prog)
+    fl = Flow(cfg)
+    n = stmt_node_of(cfg, call)
+    if n is None:
+        return norm(ex)
+    kinds = set()
+    for al in fl.alts(n, ex, boolops=True):
+        v = al.expr
+
+        def ctx_state(subj: str) -> Optional[bool]:
+            for c, pol in al.guards:
+                k = classify_cond(prog, f, c)
+                if k.subject == subj and k.kind == 'truthy':
+                    return (not k.negated) == pol
+                if k.subject == subj and k.kind == 'is-none':
+                    return k.negated == pol
+            return None
+        if isinstance(v, (ast.Tuple, ast.List, ast.Set)) and len(v.elts) == 1 and (dotted(v.elts[0]) or '').endswith('.context'):
+            if ctx_state(dotted(v.elts[0])) is True:
+                kinds.add('ctx')
+                ctx_name = dotted(v.elts[0])
+            else:
+                return norm(ex)
+        elif isinstance(v, (ast.Tuple, ast.List)) and not v.elts or (isinstance(v, ast.Call) and dotted(v.func) in ('tuple', 'list', 'set', 'frozenset') and not v.args):
+            kinds.add('empty:' + ';'.join(sorted(f'{norm(c)}={pol}' for c, pol in al.guards if 'context' in norm(c))))
+        else:
+            return norm(ex)
+    if 'ctx' in kinds and any(k.startswith('empty:') and '=False' in k or k.startswith('empty:') and 'None' in k for k in kinds if k != 'ctx'):
+        return '{<method>.context} iff set'
     return norm(ex)
 
 
@@ -115,7 +166,7 @@ def run(ck: Check, prog: Program) -> None:
     forms = {}
     for f, call, role in sites:
         ck.functions.add(f.qualname)
-        forms[short(f.qualname)] = exclude_expr(call, 2 if role == 'binder' else None)
+        forms[short(f.qualname)] = exclude_expr(call, 2 if role == 'binder' else None, prog, f)
     okx = set(forms.values()) == {'{<method>.context} iff set'}
     ck.ob('EXCL-AGREE', 'every site excludes exactly the method\'s context parameter iff one is configured', okx, sample={'sites': forms})
     if not okx:
